@@ -209,8 +209,9 @@ impl Clone for Tick {
         self.submit()
     }
 }
-pub fn tick_id(reg_inc: u32, timer: u32, n: u32) -> u64 {
-    (1u64 << 62) | ((reg_inc as u64) << 44) | ((timer as u64) << 28) | n as u64
+/// message id of the n-th tick of `timer`, registered by value `inst` in its `reg_inc`-th incarnation
+pub fn tick_id(inst: u32, reg_inc: u32, timer: u32, n: u32) -> u64 {
+    (1u64 << 62) | (((inst & 0xfff) as u64) << 50) | (((reg_inc & 0x3f) as u64) << 44) | (((timer & 0xff) as u64) << 36) | n as u64
 }
 
 // ------------------------------------------------------------------------------------------
@@ -485,7 +486,7 @@ impl<T: TagT> Handler<Ask> for Probe<T> {
 
 impl<T: TagT> Handler<Tick> for Probe<T> {
     async fn handle(&mut self, _ctx: &mut Context<Self>, m: Tick) {
-        let id = tick_id(m.reg_inc, m.timer, m.n);
+        let id = tick_id(m.inst, m.reg_inc, m.timer, m.n);
         self.enter(Cb::Tick, id);
         if m.handler_sleep > 0 {
             simrt::sleep_ns(m.handler_sleep).await;
